@@ -108,6 +108,40 @@ let layout_case line =
   let bs = rd_blobs t in
   if layout_b bs (n_of_int size) then "1" else "0"
 
+(* packauto: tpe pack_size nspec { count idbase datalen ulen }   (same generator as the harness) *)
+let dec0 y = let n = List.length y in if n < 32 then None else Some (take (n - 32) (drop 16 y))
+let packauto_case line =
+  let t = toks line in
+  let tp = tpe_of (ni t) in
+  let limit = ni t in
+  let nspec = ni t in
+  let ops = List.concat (ntimes nspec (fun () ->
+    let count = ni t in let base = ni t in let dl = ni t in let ul = ni t in
+    List.init count (fun j ->
+      let v = base + j in
+      let idb = List.init 32 (fun k -> if k < 8 then ntab.((v lsr (8 * (7 - k))) land 255) else N0) in
+      { op_data = List.init dl (fun k -> ntab.((v + 3 * k) mod 256)); op_id = idb; op_ulen = ulen_of ul; op_save = false }))) in
+  match packer_run_auto enc0 tp (n_of_int limit) ops with
+  | Panic -> "panic" | Err -> "err"
+  | Ok packs ->
+    let parts = List.map (fun (f, bs) ->
+      let blen = List.fold_left (fun a b -> a + int_of_n b.blen) 0 bs in
+      let fl = List.length f in
+      let ct = take (fl - blen - 4) (drop blen f) in
+      let pt = take (List.length ct - 32) (drop 16 ct) in
+      let tr = int_of_n (rd32 (drop (fl - 4) f)) in
+      let want = fmt_blobs bs in
+      let raw = String.init fl (let a = Array.of_list f in fun i -> Char.chr (int_of_n a.(i))) in
+      let ff = List.map (fun (name, hint) ->
+        let r = from_file (read_partial_of raw) dec0 hint (n_of_int fl) in
+        name ^ "=" ^ (match r with
+          | Panic -> "panic" | Err -> "err"
+          | Ok b -> let g = fmt_blobs b in if g = want then "same" else "ok:" ^ String.concat "," (String.split_on_char ' ' g)))
+        [("none", None); ("exact", Some (n_of_int tr)); ("zero", Some N0); ("max", Some (n_of_int (max (fl - 4) 0)))] in
+      Printf.sprintf "P %s %s %d %d %d - %s | %s" (hex_of_bytes (take blen f)) (hex_of_bytes pt) tr (List.length ct) fl want
+        (String.concat " " ff)) packs in
+    if parts = [] then "none" else String.concat " ; " parts
+
 (* ---- repacker ---- *)
 let rd_entries t =
   let n = ni t in
@@ -177,5 +211,6 @@ let () =
   main_loop (match mode with
     | "codec" -> codec_case | "frombin" -> frombin_case | "fromfile" -> fromfile_case
     | "packer" -> packer_case | "describes" -> describes_case | "layout" -> layout_case
+    | "packauto" -> packauto_case
     | "coalesce" -> coalesce_case | "coalloc" -> coalloc_case | "repack" -> repack_case
     | _ -> failwith "mode")
